@@ -5,9 +5,9 @@ CONSTANTS
   Sizes <- SizesT
   MaxWrites = 4
   ReadSizes <- ReadsW
-  EofStyles = {"separate"}
+  EofStyles = {"separate", "with-data"}
   CutAll = FALSE
-  FixEof = FALSE
+  FixEof = TRUE
   FixShort = FALSE
   Tag = 11
   Crafted <- CraftedSet
